@@ -84,6 +84,8 @@ MUTANTS = [
     ("c04-semitone-wraps-at-8-bits", DEV, "\td.semitone++\n", "\td.semitone = int(int8(d.semitone + 1))\n", ["C04"]),
     ("c17-reverse-mapping-modulo-256", "internal/pkg/midi/device/open_rgb.go", "\t\t\tbase := int(note) - offset\n\t\t\tif base < 0 || base > 127 {", "\t\t\tbase := int(note) - offset\n\t\t\tif false {", ["C17"]),
     ("c06-shared-controller-zeroed", EVS, "\t\toneController := analog.CC == analog.CCNeg && channel == channelNeg", "\t\toneController := false && analog.CC == analog.CCNeg && channel == channelNeg", ["C06"]),
+    ("c10-field-names-case-insensitive", "internal/pkg/midi/device/config/parser.go", "\t\t\tfieldType, ok := fields[key]\n", "\t\t\tfieldType, ok := fields[strings.ToLower(key)]\n", ["C10"]),
+    ("c12-named-pipes-opened", "internal/pkg/midi/device/config/loader.go", "err == nil && !st.Mode().IsRegular() {", "err == nil && !st.Mode().IsRegular() && false {", ["C12"]),
     ("c08-tracker-by-code-only", EVS, "identifier := fmt.Sprintf(\"%s/%s/%d\", ie.Source.Name, ie.Source.DeviceInfo.Event(), ie.Event.Code)", "identifier := fmt.Sprintf(\"%d\", ie.Event.Code)", ["C08"]),
     ("c08-thresholds-swapped", EVS, "\t\tcase value > -0.49 && value < 0.49:\n\t\t\td.AnalogNoteOff(identifier, ie)", "\t\tcase value > -0.3 && value < 0.3:\n\t\t\td.AnalogNoteOff(identifier, ie)", ["C08"]),
     ("c08-noteoff-current-transposition", DEV, "\tnote, channel := noteAndChannel[0], noteAndChannel[1]\n\n\tevent := midi.NoteEvent(midi.NoteOff, channel, note, 0)",
